@@ -32,10 +32,10 @@ def kernel_cases(ctx, name, requires, run_expr, tol, cases, shard=40):
     return fw.kernel_eval(ctx, name, ['Base.Flat'] + list(requires), body, len(cases), shard)
 
 
-def run(ctx, part, requires, run_expr, tol, cases, kind='property', key_of=None, what=None, shard=40, max_report=5):
+def run(ctx, part, requires, run_expr, tol, cases, kind='property', key_of=None, what=None, shard=40, max_report=5, failing=None):
     """flatcorr.run with hexadecimal literals (same case dicts, same violation records)."""
-    flat_cases = [(c['flat'], flatcorr.res_of(c['impl'])) for c in cases]
-    failing = kernel_cases(ctx, part, requires, run_expr, tol, flat_cases, shard)
+    if failing is None:     # (a caller may have evaluated several parts concurrently and pass the verdicts in)
+        failing = kernel_cases(ctx, part, requires, run_expr, tol, [(c['flat'], flatcorr.res_of(c['impl'])) for c in cases], shard)
     ctx.count(part, evaluations=len(cases), nontrivial_keys=[c['nontrivial'] for c in cases if c.get('nontrivial') is not None])
     for c in cases[:2]:
         ctx.sample(part, c['desc'])
